@@ -41,7 +41,12 @@ func VerifC10Htlc() {
 	var preimage []byte
 	var data []byte
 	if unlock {
-		preimage = verifNondetBytes("preimage", verifNondetLen("len(preimage)", 0, verifParam("preimage", 2)))
+		// lengths 0..preimage, plus lengths at and just over the 8-bit range of KeyMaxSize (255, 256, 256+k)
+		n := verifNondetLen("len(preimage)", 0, verifParam("preimage", 2)+verifParam("longpreimage", 2))
+		if short := verifParam("preimage", 2); n > short {
+			n = 254 + n - short
+		}
+		preimage = verifNondetBytes("preimage", n)
 		data = definition.ABIHtlc.PackMethodPanic(definition.UnlockHtlcMethodName, id, preimage)
 	} else {
 		data = definition.ABIHtlc.PackMethodPanic(definition.ReclaimHtlcMethodName, id)
